@@ -26,7 +26,14 @@ def bounds(tier):
     return {"greedy/roundrobin": f"values 0..6, 1..{6 if q else 7} items, 1..5 bins, descending and ascending presentation",
             "ff/bf": f"all sequences of 1..{5 if q else 6} items over 0..6 (B=6); dyadic eighths, 1..4 items (B=1)",
             "ffd/bfd": f"all multisets of 1..{7 if q else 8} items over 0..B for B in (6,12)",
+            "long-thin": "partition: 9..15(24) items over {1,2}, 9..12(16) over {1,2,3}, 9..11(13) over {0,1,5},{2,3,7}, bins {2,3,4,5,7,n,n+1}; packing: 9..14(24) items over {1,2} B=5, {1,2,3} B=7, {2,3,5} B=10, {0,1,4} B=4 in 6 fixed orders; the same multisets as covers with B+2 and 3B",
+            "big": "partition values {0,1,2**24+1,2**31+1,2**32+3,2**40+5}; packing B=2**32 letters {1,2**31-1,2**31,2**31+1,2**32-1,2**32} (and divided by 2**32, B=1); covers B in {2**32, 2**32+2, 3*2**31} with letters next to B/3, B/2",
+            "planted covers": "B=12,13,9,101,99: every unordered pair of patterns x multiplicities (40,24)" + ("" if q else ",(100,20),(7,150)") + " (up to ~600 items)",
             "covers": f"all multisets of 1..{6 if q else 7} items over 1..B+3 for B in (6,12) + 1..{8 if q else 10} items over (1,2,3,4,6) B=12 and (1,2,3) B=6"}
+
+
+LONG_PACK = [((1, 2), 9, 24, 5), ((1, 2, 3), 9, 16, 7), ((2, 3, 5), 9, 14, 10), ((0, 1, 4), 9, 14, 4)]
+BIG_LETTERS = (1, 2 ** 31 - 1, 2 ** 31, 2 ** 31 + 1, 2 ** 32 - 1, 2 ** 32)
 
 
 def tasks(tier):
@@ -47,6 +54,34 @@ def tasks(tier):
     for alpha, B in (((1, 2, 3, 4, 6), 12), ((1, 2, 3), 6)):
         for ch in scopes.chunk_multisets(alpha, 7, 8 if q else 10, 500):
             ts.append(("cover", ch, B))
+    # ---- beyond the dense scopes: many items over tiny alphabets, large magnitudes, large planted covers
+    for ch in spaces.chunked(scopes.long_thin_multisets(tier), 60):
+        ts.append(("partition-long", ch, None))
+    for ch in scopes.chunk_multisets(scopes.BIG_VALUES, 1, 5 if q else 6, 100):
+        ts.append(("partition", ch, (1, 2, 3, 4)))
+    for alpha, lo, hi, B in LONG_PACK:
+        for ch in scopes.chunk_multisets(alpha, lo, hi if not q else min(hi, lo + 5), 100):
+            ts.append(("fit-long", ch, B))
+            ts.append(("cover", ch, B + 2))
+            ts.append(("cover", ch, 3 * B))
+    for ch in spaces.chunked(spaces.sequences(BIG_LETTERS, 1, 4 if q else 5), 500):
+        ts.append(("fit-seq4", ch, 2 ** 32))
+    for ch in spaces.chunked(spaces.sequences([Fraction(v, 2 ** 32) for v in BIG_LETTERS], 1, 4), 500):
+        ts.append(("fit-dyadic", ch, 1))
+    for Bc in (2 ** 32, 2 ** 32 + 2, 3 * 2 ** 31):
+        letters = (1, 2, Bc // 3, Bc // 3 + 1, Bc // 2 - 1, Bc // 2, Bc // 2 + 1, Bc)
+        for ch in scopes.chunk_multisets(letters, 1, 5 if q else 6, 400):
+            ts.append(("cover", ch, Bc))
+    from .c10 import PLANT_BIG
+    for Bb, lettersb in PLANT_BIG:
+        pats = spaces.partitions_of(Bb, lettersb, 4)
+        big = []
+        for i, pth in enumerate(pats):
+            for r in pats[i:]:
+                for a, b in (((40, 24),) if q else ((40, 24), (100, 20), (7, 150))):
+                    big.append(tuple(sorted(pth * a + r * b, reverse=True)))
+        for ch in spaces.chunked(big, 40):
+            ts.append(("cover", ch, Bb))
     return ts
 
 
@@ -85,7 +120,21 @@ def run_task(task):
                     n = max(n, _cmp(acc, a, it, k, m))
                     _cmp(acc, a, it[::-1], k, m)
                 acc.point(nontrivial=(n >= 2))
-        elif scope in ("fit-seq", "fit-dyadic"):
+        elif scope == "partition-long":
+            n = 0
+            for k in scopes.long_thin_bins(len(it)):
+                for a, m in M.PARTITION_MODELS.items():
+                    n = max(n, _cmp(acc, a, scopes.scramble(it), k, m))
+            acc.point(nontrivial=(n >= 2))
+        elif scope == "fit-long":
+            n = 0
+            for order in spaces.fixed_orders(it):
+                for a in ("ff", "bf"):
+                    n = max(n, _cmp(acc, a, order, size, M.PACK_MODELS[a]))
+            for a in ("ffd", "bfd"):
+                n = max(n, _cmp(acc, a, scopes.scramble(it), size, M.PACK_MODELS[a]))
+            acc.point(nontrivial=(n >= 2))
+        elif scope in ("fit-seq", "fit-dyadic", "fit-seq4"):
             items = [float(v) for v in it] if scope == "fit-dyadic" else list(it)
             n = 0
             for a in (("ff", "bf") if scope == "fit-seq" else ("ff", "bf", "ffd", "bfd")):
